@@ -22,7 +22,12 @@ RULE = ('Frames of every length 4..257 (quick: every length 4..40 plus a sample 
         'the window; the oracle judges those farther than the main lobe from DC and Nyquist), 1..4 averages with per-block amplitudes and 0..B-1 trailing samples to trim, 1-D and batched 2-D / 3-D input; '
         'DC and Nyquist tones; random frames for Parseval and the inverse transform (even: exact inverse, odd: length only); '
         'unit impulses at every block boundary for the trimming / averaging index model; dB helpers on scalars, lists, arrays, '
-        'Series.  Non-trivial: every case except dB cases with a single value.  Distinct = distinct case dictionaries.')
+        'Series.  Variants: detrend constant / linear / default (tone plus offset and slope, 1-2 averages, with and without window, '
+        'read-only input, input left untouched), int64 / int32 / int16 / float32 / list frames, batched (2-D / 3-D) inverse transforms, window tuples (general_hamming, '
+        'general_cosine, kaiser, tukey, gaussian) and boxcar, rms / rms_rfft along every axis of 1-3-D arrays with and without '
+        'detrending and on Series, psd_df / csd_df / phase_df on 1-D / 2-D arrays, DataFrames, Series, tone_conv on batches with '
+        'frequency arrays / lists / ints, dB helpers on ints, int arrays, tuples, NumPy scalars, DataFrames, 0 and empty input.  '
+        'Non-trivial: every case except dB cases with a single value.  Distinct = distinct case dictionaries.')
 TRUSTED = ['translate/pyexpr2coq.py + translate/pyexpr2coq_ext.py + translate/c16_spec.py (fail-closed AST translator; '
            'self-tested on every run by an independent interpreter of the emitted text against the real functions)',
            'harness/C16.py (generators; DFT sums evaluated in binary64 by explicit cos/sin matrices; comparison tolerances)',
@@ -43,7 +48,11 @@ ASSUMPTIONS = ['identities are stated for detrend=None: the default detrend="lin
                'csd_to_signal reconstructs n = 2 (len(csd) - 1) samples (numpy irfft default): the inverse law is stated and '
                'checked for even frame lengths; for odd lengths only the returned length N - 1 is checked (the one-sided '
                'spectrum does not carry the parity of N)',
-               'arguments of log10 are > 0']
+               'arguments of log10 are > 0 (db(0) = -inf is checked separately)',
+               'detrend="constant" leaves a whole-cycle tone intact (zero mean) and is judged exactly; detrend="linear" and the default '
+               'are judged as projections (adding an offset and slope changes nothing) and against the least-squares model',
+               'windows that are not cosine sums (kaiser 8, tukey 0.5, gaussian 7) are judged 8+ bins from DC / Nyquist within 2e-3 / '
+               '1e-3 / 1e-3 (their side lobes)']
 
 GEN = 'gen/UtilExprGen.v'
 _DEFS = None
@@ -357,6 +366,16 @@ def _impl_var(case):
                        rms=dev(lambda x1, l1: util.rms(x1)), rms_detrend=dev(lambda x1, l1: util.rms(x1, detrend=True)),
                        same_input=bool(np.array_equal(xq, (x if dt == 'float32' else np.round(x)).astype(dt))))
         return res
+    if w == 'batchinv':
+        X = np.random.RandomState(case['seed']).uniform(-1, 1, case['shape']) * case['amp']
+        C = util.csd(X, detrend=None)
+        back = util.csd_to_signal(C)
+        flat = X.reshape(-1, X.shape[-1])
+        rowwise = np.stack([util.csd_to_signal(util.csd(r, detrend=None)) for r in flat]).reshape(X.shape)
+        return {'shape': list(back.shape), 'dev': float(np.max(np.abs(back - X))) / case['amp'],
+                'dev_rowwise': float(np.max(np.abs(back - rowwise))) / case['amp'],
+                'as_list': _try(lambda: float(np.max(np.abs(util.csd_to_signal([list(r) for r in C.reshape(-1, C.shape[-1])])
+                                                          - flat))) / case['amp'])}
     if w == 'winkind':
         N, k, A, p, fs = case['N'], case['k'], case['A'], case['p'], case['fs']
         win = _wspec(case['window'])
@@ -529,6 +548,15 @@ def _oracle_var(case, res):
             return f'{tag}: psd reads {res["psd_bin"]} at the bin, the values have {res["want"]}'
         if res.get('same_input') is False:
             return f'{tag}: the input array was modified'
+        return None
+    if w == 'batchinv':
+        tag = f"csd_to_signal(csd(X)) for a batch X of shape {case['shape']}"
+        if res['shape'] != case['shape']:
+            return f'{tag}: returns shape {res["shape"]}'
+        if not res['dev'] <= TOL or not res['dev_rowwise'] <= TOL:
+            return f'{tag}: differs from X by {res["dev"]} (from the row-by-row inverse by {res["dev_rowwise"]}) of the amplitude'
+        if not _iserr(res['as_list']) and not res['as_list'] <= TOL:
+            return f'{tag}: a nested list of spectra is inverted with error {res["as_list"]}'
         return None
     if w == 'winkind':
         N, k, A, p = case['N'], case['k'], case['A'], case['p']
@@ -1003,8 +1031,6 @@ def nontrivial(case, res):
 KNOWN_WITNESSES = {
     'csd_to_signal:odd-length': {'kind': 'known', 'what': 'odd-inverse', 'N': 9},
     'detrend:default-linear-biases-low-bins': {'kind': 'known', 'what': 'default-detrend', 'N': 257, 'k': 1, 'p': 1.0},
-    'csd_to_signal:batch-scale': {'kind': 'known', 'what': 'batch-inverse', 'rows': 3, 'N': 64},
-    'rms:int16-overflow': {'kind': 'known', 'what': 'int16-rms', 'N': 64, 'A': 1000.0},
 }
 # outside the property text (it speaks of ONE sinusoid), kept for replay: tone_power_fft / tone_phase_fft ignore `frequency`
 OBSERVATIONS = {'tone_power_fft:frequency-ignored': {'kind': 'known', 'what': 'fft-frequency-ignored', 'N': 64, 'fs': 1000.0,
@@ -1096,7 +1122,7 @@ def _var_cases(rng, quick):
                     yield {'kind': 'var', 'what': 'detrend', 'N': N, 'k': k, 'A': A, 'p': rng.uniform(-3, 3), 'fs': rng.choice(RATES),
                            'mode': mode, 'a': rng.choice([0.0, A * rng.uniform(-20, 20)]), 'b': rng.choice([0.0, A * rng.uniform(-0.5, 0.5)]),
                            'B': B, 'window': win}
-    for dt in ('int64', 'int32', 'float32', 'list'):
+    for dt in ('int64', 'int32', 'int16', 'float32', 'list'):
         for _ in range(3 if quick else 20):
             N, k = nk()
             yield {'kind': 'var', 'what': 'dtype', 'N': N, 'k': k, 'A': rng.choice([50.0, 700.0, float(rng.randint(20, 3000))]),
@@ -1113,6 +1139,8 @@ def _var_cases(rng, quick):
         for ax in axes:
             yield {'kind': 'var', 'what': 'rmsax', 'shape': shape, 'axis': ax, 'seed': rng.randrange(10 ** 6),
                    'a': rng.uniform(-5, 5), 'b': rng.choice([0.0, rng.uniform(-2, 2), 1.5])}
+    for shape in ([3, 64], [2, 8], [1, 10], [5, 4], [2, 3, 16], [4, 1, 6]):
+        yield {'kind': 'var', 'what': 'batchinv', 'shape': shape, 'seed': rng.randrange(10 ** 6), 'amp': float(10 ** rng.uniform(-2, 2))}
     for form in ('array2d', 'frame', 'series', 'array1d'):
         for B in (1, 2, 3):
             N = rng.choice([16, 25, 40])
